@@ -65,6 +65,14 @@ def tsqr(x, compute_svd=False, finalize_svd=True):
         https://arxiv.org/abs/1301.1071
     """
 
+    if any(c < x.shape[1] for c in x.chunks[0]):
+        # each row block must yield an (n, n) R factor
+        raise ValueError(
+            "qr requires every row chunk to have at least as many rows as the array has columns, "
+            f"but row chunks are {x.chunks[0]} and there are {x.shape[1]} columns. "
+            "Consider rechunking."
+        )
+
     # follows Algorithm 2 from Benson et al, modified for SVD
     Q1, R1 = _qr_first_step(x)
 
